@@ -29,7 +29,7 @@ from .. import primlib as pl
 from . import c10
 
 PID = "C11"
-PROOF_FILES = ["theories/Props/C11.v", "theories/Proofs/DistPrimOptimal.v", "theories/Checker/Prim.v"]
+PROOF_FILES = ["theories/Props/C11.v"] + c10.PROOF_FILES[1:]
 BISECTION = {"line_to_circle", "line_segment_to_circle"}
 EPS_FUNCS = {
     "line_to_line", "line_to_line_segment", "line_segment_to_line_segment", "line_to_plane",
@@ -123,7 +123,10 @@ def known_id(case, r):
     """id of the C11 known finding whose predicate the input satisfies, else None"""
     fn = case["fn"]
     if fn in ("line_to_circle", "line_segment_to_circle"):
-        if 0.0 < circle_m0sqr(case) < 1e-20:
+        m0 = r.get("m0sq")
+        if m0 is None:
+            m0 = circle_m0sqr(case)
+        if 0.0 < m0 < 1e-20:
             return "F23"          # parallel to the normal up to rounding, exact `> 0.0` test
     if fn == "line_segment_to_circle":
         if r.get("on_line") is False:
@@ -198,7 +201,11 @@ def run(tier, seed, replay=None):
         "(a certificate was actually needed)")
     R.assumptions += [
         "theorems are about the Gallina model Model/DistPrim.v in exact real arithmetic; float rounding is measured, not proved",
-        "per-input optimality verdicts follow from Checker/Prim.sep_cert_sound; the candidate directions are untrusted",
+        ("per-input optimality verdicts follow from Checker/Prim.sep_cert_sound; the candidate directions are untrusted"
+         if c10.coq_checker_planned() else
+         "per-input optimality verdicts are decided by the exact Python fractions separating-direction test primlib.sep_cert "
+         "(python-exact-oracle; the candidate directions are untrusted); no Coq-proven checker is involved yet"),
+        "universality over inputs comes from a theorem only for the functions listed in coverage.universal_theorems",
         "circle functions: when no separating certificate exists (object inside the circle's disk) optimality is judged by a fine "
         "search only (untrusted-oracle); a reported failure is always an exactly verified closer pair",
         "harness/compat.py import shim; numpy/numba/CPython",
@@ -207,6 +214,7 @@ def run(tier, seed, replay=None):
         R.check_proofs([f for f in PROOF_FILES if (cm.COQ / f).exists()])
     else:
         R.proof_broken.append("Props/C11.v missing")
+    c10.theorem_coverage(R, PID)
 
     cases = c10.load_cases(replay, R.rng, tier)
     n_gen = len(cases)
@@ -262,11 +270,12 @@ def run(tier, seed, replay=None):
                     R.corr_broken.append(f"Coq sep_cert rejects a certificate the Python fractions check accepted ({c['fn']}): {o[:80]}")
         except RuntimeError as e:
             R.corr_broken.append(f"checker evaluation failed: {str(e)[:400]}")
-    else:
+    elif c10.coq_checker_planned():
         R.corr_broken.append("Checker/Prim.vo not built")
     R.cov["certificates_checked_by_coq"] = n_coq
     R.cov["oracle_labels"] = {
-        "ok-cert": "coq-proven-checker sep_cert (python fractions pre-check, then vm_compute)",
+        "ok-cert": ("coq-proven-checker sep_cert (python fractions pre-check, then vm_compute)" if c10.have_coq_checker()
+                    else "python-exact-oracle: separating direction verified with exact fractions (primlib.sep_cert); decides alone"),
         "point_to_circle": "python-exact-oracle (closed form with rational sqrt bounds)",
         "undecided (circle functions)": "untrusted-oracle: fine search found no closer pair",
         "fail": "closer pair re-verified exactly with fractions"}
